@@ -371,6 +371,42 @@ def bind_pattern(g, pat, t, out):
         return
 
 
+
+def r9b_offset_values(rep, g, facts):
+    R = rep.rule('C02/R9b', 'offset value table: `Z` / `z` decode to Offset::Z and a numeric offset to Offset::Custom { minutes: +-(60 * hh + mm) } for every '
+                 'value including +00:00 and -00:00 (which are not `Z`): decided by evaluating the value time_offset computes from the outputs of its sub-parsers', floor=2)
+    from .den import ParseValueInterp
+    b = facts.body(P + 'datetime::time_offset')
+    loc = facts.loc(b)
+    inp = [p_['name'] for p_ in b.get('params', []) if p_.get('k') == 'p_bind']
+    bad = None
+    try:
+        for z in (ord('Z'), ord('z')):
+            pv = ParseValueInterp(g.ev, [z], choices=[0])
+            r = pv.run(b['body'], {n_: ('input',) for n_ in inp})
+            v = r[2][0] if isinstance(r, tuple) and len(r) == 3 and r[1].endswith('Result::Ok') else r
+            if not (isinstance(v, tuple) and v[0] == 'ctor' and v[1].endswith('Offset::Z')) and bad is None:
+                bad = (chr(z), v)
+        rep.check(R, 'time_offset|Z', bad is None, 'Z / z -> Offset::Z', f'`{bad[0]}` decodes to {bad[1]}' if bad else '', loc)
+        bad = None
+        n = 0
+        for sg, sv in ((ord('+'), 1), (ord('-'), -1)):
+            for hh in (0, 7, 23):
+                for mm in (0, 30, 59):
+                    n += 1
+                    pv = ParseValueInterp(g.ev, [sg, hh, ord(':'), mm], choices=[1])
+                    r = pv.run(b['body'], {n_: ('input',) for n_ in inp})
+                    v = r[2][0] if isinstance(r, tuple) and len(r) == 3 and r[1].endswith('Result::Ok') else r
+                    want = sv * (60 * hh + mm)
+                    okv = isinstance(v, tuple) and v[0] == 'struct' and v[1].endswith('Offset::Custom') and v[2].get('minutes') == want
+                    if not okv and bad is None:
+                        bad = (f'{chr(sg)}{hh:02}:{mm:02}', v, want)
+        rep.check(R, 'time_offset|numeric', bad is None, f'{n} (sign, hh, mm) combinations -> Offset::Custom {{ minutes }}',
+                  f'the offset `{bad[0]}` decodes to {bad[1]}, expected Offset::Custom {{ minutes: {bad[2]} }} (a numeric offset of zero is not `Z`)' if bad else '', loc)
+    except Unanalysable as e:
+        rep.incomplete(R, 'time_offset|numeric', f'cannot evaluate time_offset: {e}', loc)
+
+
 def r9_wiring(rep, g, facts):
     R = rep.rule('C02/R9', 'date-time assembly wiring: every field of Time / Date / Datetime is initialised from the binding produced by the parser of '
                  'that field, and the offset is sign * (hours * 60 + minutes)', floor=9)
@@ -479,6 +515,7 @@ def rules(rep, facts):
     if 'toml' in facts.crates and facts.has_body("<toml_edit::de::value::ValueDeserializer as serde::de::Deserializer<'de>>::deserialize_any"):
         r8_serde_table(rep, facts)
     r9_wiring(rep, g, facts)
+    r9b_offset_values(rep, g, facts)
 
 
 def run(tier):
